@@ -48,6 +48,10 @@ import (
 // call-layer key, so the config files show through for every key the node never had in its call
 // layer, and later Assigns are that node's own.
 //
+// Zero values: a Fill (map, struct with a plain / omitempty-tagged / untagged field, pointer) or an
+// Assign may give a key the zero value "". The key is still defined by that call, so the node
+// shows "" for it and not a lower source's value.
+//
 // After every operation every live node is observed (Get of each key, and a render: Render for
 // loaded nodes, RenderString for the others) and
 //   - each known key must show the model's value in Get, {{ k }}, {{ k + '' }}, :data-x="k" and
@@ -69,6 +73,7 @@ type Op struct {
 	Pool int      `json:"pool,omitempty"` // fill/shared: which pool map
 	Keys []string `json:"keys,omitempty"` // fill: the keys the argument defines
 	Key  string   `json:"key,omitempty"`  // assign / get
+	Zero []string `json:"zero,omitempty"` // fill / assign: keys that get the zero value "" instead of a token
 }
 
 // CaseB is a history plus the static sources.
@@ -120,6 +125,8 @@ func (c CaseB) candidates(k string) []string {
 	}
 	for i, op := range c.Ops {
 		switch {
+		case inList(op.Zero, k):
+			// the value is "", not a token
 		case op.Op == "fill" && op.Kind != "shared" && !emptyFill(op.Kind) && inList(op.Keys, k):
 			out = append(out, fmt.Sprintf("F%d%s", i, k))
 		case op.Op == "assign" && op.Key == k:
@@ -500,6 +507,9 @@ func checkB(c CaseB) error {
 				for _, k := range op.Keys {
 					if inList(keysB, k) && !emptyFill(op.Kind) {
 						vs[k] = fmt.Sprintf("F%d%s", i, k)
+						if inList(op.Zero, k) {
+							vs[k] = "" // the zero value: the key is still defined by this Fill
+						}
 					}
 				}
 				t.Fill(fillValue(op.Kind, vs))
@@ -515,6 +525,9 @@ func checkB(c CaseB) error {
 				return fmt.Errorf("malformed case: assign of unknown key %q", op.Key)
 			}
 			v := fmt.Sprintf("S%d%s", i, op.Key)
+			if inList(op.Zero, op.Key) {
+				v = ""
+			}
 			t.Assign(op.Key, v)
 			mn.call[op.Key] = mval{true, v}
 		case "render":
@@ -678,7 +691,7 @@ func genHistory(t *rapid.T, rec *ev.Rec, avoidFM bool) CaseB {
 			if sharing {
 				op.Kind = "shared"
 			} else {
-				kinds := []string{"shared", "shared", "map", "struct", "ptr", "nil", "typed-nil-map", "empty-map"}
+				kinds := []string{"shared", "map", "struct", "struct", "ptr", "ptr", "nil", "typed-nil-map", "empty-map"}
 				if mode == "nofill" {
 					kinds = []string{"nil", "nil", "nil", "typed-nil-map", "empty-map", "map", "struct", "shared"}
 				}
@@ -688,6 +701,11 @@ func genHistory(t *rapid.T, rec *ev.Rec, avoidFM bool) CaseB {
 				op.Pool = rapid.SampledFrom([]int{0, 0, 0, 1}).Draw(t, "pool")
 			} else if !emptyFill(op.Kind) {
 				op.Keys = genSubset(t, "fill-")
+				for _, k := range op.Keys {
+					if rapid.IntRange(0, 2).Draw(t, "zero-"+k) == 0 {
+						op.Zero = append(op.Zero, k)
+					}
+				}
 			}
 		case "get":
 			op.Key = rapid.SampledFrom(keysB).Draw(t, "key")
@@ -707,6 +725,9 @@ func genHistory(t *rapid.T, rec *ev.Rec, avoidFM bool) CaseB {
 				pool = keysB
 			}
 			op.Key = rapid.SampledFrom(pool).Draw(t, "key")
+			if op.Op == "assign" && rapid.IntRange(0, 5).Draw(t, "zero") == 0 {
+				op.Zero = []string{op.Key}
+			}
 		}
 		c.Ops = append(c.Ops, op)
 	}
@@ -797,6 +818,17 @@ func classifyB(c CaseB) (bool, []string) {
 						cls["no-data-fill-on-node-with-front-matter"] = true
 					}
 				}
+				for _, k := range op.Zero {
+					if inList(op.Keys, k) && !emptyFill(op.Kind) && op.Kind != "shared" {
+						cls["fill-gives-zero-value"] = true
+						if (op.Kind == "struct" || op.Kind == "ptr") && !c.NoCfg {
+							cls["struct-fill-gives-zero-value-for-a-config-key"] = true
+							if k == "kb" {
+								cls["struct-fill-gives-zero-value-through-omitempty-field"] = true
+							}
+						}
+					}
+				}
 				keys := op.Keys
 				if op.Kind == "shared" {
 					keys = c.poolKeys(op.Pool)
@@ -824,6 +856,9 @@ func classifyB(c CaseB) (bool, []string) {
 				}
 			}
 			if op.Op == "assign" {
+				if inList(op.Zero, op.Key) {
+					cls["assign-gives-zero-value"] = true
+				}
 				if nodes[ni].nofill {
 					cls["assign-after-no-data-fill"] = true
 					tainted[op.Key] = ni
